@@ -192,6 +192,15 @@ def lin_part(prop, tier, seed):
 
 
 PARTS["C10"] = [lin_part]
+
+
+def fill_part(prop, tier, seed):
+    from . import fillpart
+    return fillpart.run(prop, tier, seed)
+
+
+PARTS["C07"] = [fill_part]
+PARTS["C08"] = [fill_part]
 LEVEL = {"C15": "fault_enumeration"}
 
 
